@@ -19,6 +19,9 @@ import J5V.Walker.Stub
   split of a given block is non-empty and, followed from the block's own schema the way
   `walkScope` / `childBlock` / `scopeField` would in a scope made of that single block (alias before
   property, `walkPath` along the alias path), ends at a field that `classify` makes a `.scalar`.
+* `Env.mapNamesFresh` (Spec.lean): the name of a map container (`<owner schema>.<property>`) is neither
+  a schema name nor the name of a given block — so a map container has the empty given spec, in
+  particular no scalar split (`splitOK` only looks at message containers).
 -/
 namespace J5V.Walker
 
@@ -177,6 +180,6 @@ def Env.splitOK (env : Env) : Bool :=
 
 /-- the well-formedness of an environment -/
 def Env.WF (env : Env) : Bool :=
-  env.closed && env.typesOK && env.rootOK && env.stubOK && env.splitOK
+  env.closed && env.typesOK && env.rootOK && env.stubOK && env.splitOK && env.mapNamesFresh
 
 end J5V.Walker
